@@ -106,6 +106,37 @@ static void emit_ssid(bin_mdef_t *m, iset_t *ssids, int ci, int lc, int rc, int 
     int ssid = bin_mdef_pid2ssid(m, pid);
     printf("S %d %d %d %d %d\n", ci, lc, rc, wpos, ssid);
     iset_add(ssids, ssid);
+    /* close6-c02: the check no longer trusts the ssid above (it recomputes the back-off with the Lean model `nearest` from the
+     * dumped cd_tree and feeds THAT to the optimum oracle), so the senone sequences of every triphone the back-off rule could
+     * land on must be in the dump: exact look-ups at every word position, with and without silence contexts (Q / N lines) */
+    {
+        int sil = bin_mdef_silphone(m), t, a, b2;
+        for (a = 0; a < 2; a++) for (b2 = 0; b2 < 2; b2++) for (t = 0; t < N_WORD_POSN; t++) {
+            int l2 = a && sil >= 0 ? sil : lc, r2 = b2 && sil >= 0 ? sil : rc;
+            int p2 = bin_mdef_phone_id(m, ci, l2, r2, (word_posn_t)t);
+            if (p2 >= 0) iset_add(ssids, bin_mdef_pid2ssid(m, p2));
+        }
+    }
+}
+
+/* close6-c02: `absent` — every (b, l, r) over non-filler phones whose triphone the model definition has at NO word position
+ * (exact bin_mdef_phone_id look-ups only): the boundary contexts where the back-off rule decides the senone sequence */
+static void dump_absent(void)
+{
+    bin_mdef_t *m = d->acmod->mdef;
+    int nci = bin_mdef_n_ciphone(m), b, l, r, t;
+    for (b = 0; b < nci; b++) for (l = 0; l < nci; l++) {
+        printf("AB %d %d", b, l);
+        for (r = 0; r < nci; r++) {
+            int any = 0;
+            for (t = 0; t < N_WORD_POSN; t++) if (bin_mdef_phone_id(m, b, l, r, (word_posn_t)t) >= 0) any = 1;
+            if (!any) printf(" %d", r);
+        }
+        printf("\n");
+    }
+    printf("PHONES %d", bin_mdef_silphone(m));
+    for (b = 0; b < nci; b++) printf(" %s:%d", bin_mdef_ciphone_str(m, b), bin_mdef_is_fillerphone(m, b) ? 1 : 0);
+    printf("\nabsent done\n");
 }
 
 /* the lextree the search really uses: every pnode (XN), the root chain of every state (XR), the child chain
@@ -498,6 +529,13 @@ int main(int argc, char **argv)
             detail_frame = atoi(w[1]);
         } else if (!strcmp(w[0], "probe") && n == 2) {
             if (nprobe < MAXPROBE) probes[nprobe++] = atoi(w[1]);
+        } else if (!strcmp(w[0], "absent")) {
+            dump_absent();
+        } else if (!strcmp(w[0], "addword") && n == 3) {
+            /* close6-c02: a word added at run time through the public call (dict2pid_add_word path); phones joined by '_' */
+            char *q;
+            for (q = w[2]; *q; q++) if (*q == '_') *q = ' ';
+            if (dict_wordid(d->dict, w[1]) < 0 && decoder_add_word(d, w[1], w[2], 1) < 0) printf("error addword %s\n", w[1]);
         } else if (!strcmp(w[0], "run")) {
             run_case();
         } else
